@@ -88,10 +88,10 @@ func VerifC19OwnedObjectStatus() {
 // VerifC19SourceItem: copying a source item never panics for any key / destination the API schema admits.
 func VerifC19SourceItem() {
 	item := corev1alpha1.ObjectTemplateSourceItem{
-		Key:         verifrt.StringFrom("item.key", ".metadata.name", "metadata.name", "{.metadata.name}", "", "{"),
+		Key:         verifrt.StringFrom("item.key", ".metadata.name", "metadata.name", "{.metadata.name}", "", "{", ".status.items[*].name"),
 		Destination: verifrt.StringFrom("item.destination", ".a", "", ".", "a", ".a.b", "..", ".a."),
 	}
-	src := &unstructured.Unstructured{Object: map[string]interface{}{}}
+	src := &unstructured.Unstructured{Object: map[string]interface{}{"status": map[string]interface{}{"items": []interface{}{}}}}
 	src.SetName("source")
 	cfg := map[string]interface{}{}
 	if verifrt.Bool("config.prefilled") {
